@@ -143,6 +143,28 @@ func runC04(t *testing.T, c c04Cfg) {
 		sim.SetNested(obj, []interface{}{"example.com/hold"}, "metadata", "finalizers")
 	}
 	created := s.MustCreate(gvr, obj)
+	// two more matching orphans of the same resource, so that one claim pass has several
+	// adoption candidates (the verdict of the fresh parent read must hold for all of them)
+	for _, sn := range []string{"aaa-sib-" + uid, "zzz-sib-" + uid} {
+		sib := sim.DeepCopy(obj)
+		sim.SetNested(sib, sn, "metadata", "name")
+		sim.SetLabels(sib, func() map[string]string {
+			l := map[string]string{}
+			for k, v := range sim.Labels(obj) {
+				l[k] = v
+			}
+			for k, v := range r.matchingLabels() {
+				l[k] = v
+			}
+			return l
+		}())
+		delete(sib["metadata"].(map[string]interface{}), "ownerReferences")
+		delete(sib["metadata"].(map[string]interface{}), "finalizers")
+		if c.Target == "revision" {
+			delete(sib, "children") // (the typed client omits an empty list)
+		}
+		s.MustCreate(gvr, sib)
+	}
 	if c.Child == "deleting" {
 		s.ExtDelete(gvr, sim.NS(created), sim.Name(created), "")
 	}
@@ -191,6 +213,7 @@ func runC04(t *testing.T, c c04Cfg) {
 
 	// classify what happened to the object under test
 	adopted, released := false, false
+	siblingsAdopted := 0
 	var canAdoptGet *sim.Request
 	for _, q := range sr.Requests {
 		if q.Actor != "mc" {
@@ -198,6 +221,20 @@ func runC04(t *testing.T, c c04Cfg) {
 		}
 		if q.Verb == "get" && q.GVR == pgvr && q.Name == sc.parentName() && canAdoptGet == nil && !adopted {
 			canAdoptGet = q
+		}
+		if q.GVR == gvr && q.Name != sim.Name(created) && q.Verb == "update" && q.OK() && q.Applied {
+			// a sibling orphan: every accepted adoption is held to clause (1)
+			preC, postC := sim.ControllerOf(q.Pre), sim.ControllerOf(q.Post)
+			if (preC == nil || preC.UID != ourUID) && postC != nil && postC.UID == ourUID {
+				siblingsAdopted++
+				if canAdoptGet == nil {
+					viol("adopt-without-recheck", "adoption of "+q.Name+" accepted without a preceding uncached GET of the parent in this sync")
+				} else if canAdoptGet.Pre == nil || sim.UID(canAdoptGet.Pre) != ourUID {
+					viol("adopt-after-parent-replaced", fmt.Sprintf("adoption of %s accepted although the fresh read of the parent returned uid %q (cached %q)", q.Name, sim.UID(canAdoptGet.Pre), ourUID))
+				} else if sim.IsDeleting(canAdoptGet.Pre) {
+					viol("adopt-by-deleting-parent", "adoption of "+q.Name+" accepted although the fresh read of the parent shows a deletionTimestamp")
+				}
+			}
 		}
 		if q.GVR != gvr || q.Name != sim.Name(created) {
 			continue
@@ -234,6 +271,9 @@ func runC04(t *testing.T, c c04Cfg) {
 				released = true
 			}
 		}
+	}
+	if cachedDeleting && siblingsAdopted > 0 {
+		viol("claim-change-by-deleting-parent", fmt.Sprintf("a parent whose cached object is being deleted adopted %d sibling orphans", siblingsAdopted))
 	}
 	if cachedDeleting && (adopted || released) {
 		viol("claim-change-by-deleting-parent", fmt.Sprintf("a parent whose cached object is being deleted adopted=%v released=%v", adopted, released))
@@ -279,7 +319,7 @@ func runC04(t *testing.T, c c04Cfg) {
 			}
 		}
 	}
-	rep.Case("C04", id, true, id, map[string]interface{}{"cfg": c, "adopted": adopted, "released": released, "requests": sim.DescribeLog(sr.Requests, true)})
+	rep.Case("C04", id, true, id, map[string]interface{}{"cfg": c, "adopted": adopted, "released": released, "siblingsAdopted": siblingsAdopted, "requests": sim.DescribeLog(sr.Requests, true)})
 }
 
 func selectorMatchesObj(sel labels.Selector, o sim.Obj, _ bool) bool {
